@@ -263,7 +263,7 @@ func (c *Ctx) readerSiblings(rule string) {
 		}
 		match := false
 		for _, t := range types_ {
-			if nt.Obj().Name() == t {
+			if nt == c.P.Named(t) { // through the anchor: a renamed type is re-bound
 				match = true
 			}
 		}
